@@ -12,9 +12,11 @@ for f in ("patch.diff", "demo.diff", "README.md"):
 log = open(os.path.join(src, "verify.log")).read()
 mon = re.search(r"monitor (C\d+) quick against the change: exit (\d+)", log)
 wide = {}
-wp = os.path.join(src, "wide.log")
-if os.path.exists(wp):
-    for m in re.finditer(r"^(C\d+) quick exit (\d+)", open(wp).read(), re.M): wide[m.group(1)] = int(m.group(2))
+for wp in sorted(f for f in os.listdir(src) if re.fullmatch(r"wide\d*\.log", f)) + []:
+    # wide1.log (earlier run) first, wide.log (latest) last: the latest verdict per monitor wins
+    pass
+for name in [f for f in sorted(os.listdir(src)) if re.fullmatch(r"wide\d+\.log", f)] + (["wide.log"] if os.path.exists(os.path.join(src, "wide.log")) else []):
+    for m in re.finditer(r"^(C\d+) quick exit (\d+)", open(os.path.join(src, name)).read(), re.M): wide[m.group(1)] = int(m.group(2))
 meta = {
     "id": bid, "property": prop, "kind": "benign (property-preserving behaviour change; a check that reports it raises a false alarm)",
     "origin": "independent sub-agent given only the property text and a scratch worktree",
